@@ -720,6 +720,26 @@ def run(ctx):
                         if not origin_has_call(recv, r"::rev$"):
                             o0 = cf.origin_place({"l": 0, "p": []})
                             ok = (origin_has_call(o0, r"Result::<T, E>::ok$") and (origin_has_call(o0, re.escape(te_parse) + "$") or origin_has_call(o0, r"<impl str>::parse$"))) or (o0[0] == "call" and o0[1] == te_parse)
+                            if not ok:
+                                # path-wise (the closure may skip some entries first, `if q <= 0 { return None }`): whatever it answers is
+                                # nothing, or what the token parser said for this entry, and every path that consults the parser answers that
+                                import absint as absint_
+                                pcs_ = [b_ for b_ in cf.call_blocks(lambda t2: is_te_parse(t2, te_parse))]
+                                n_p, bad_p = 0, 0
+                                for pp in absint_.explore(cf, 0, None, max_paths=400):
+                                    if pp.end[0] != "return":
+                                        continue
+                                    r_ = pp.ret()
+                                    asked = [e for e in pp.calls() if e[0] in pcs_]
+                                    from_parser = bool(asked) and absint_.mentions_call(r_, asked[0][4]) and \
+                                        ((r_[0] == "call" and re.search(r"Result::<T, E>::ok$", r_[1])) or r_[0] in ("some", "payload", "refined", "field"))
+                                    if asked:
+                                        n_p += 1
+                                        if not from_parser:
+                                            bad_p += 1
+                                    elif r_ != ("none",) and not (r_[0] == "agg" and r_[2] == "None"):
+                                        bad_p += 1
+                                ok = n_p > 0 and bad_p == 0
         ctx.ob("C05.4", "%s|first-supported-wins" % p.id, "the first coding (in preference order) that is supported is the answer", ok, "%s:%d" % (p.file, p.line))
     elif len(folds) == 1:
         fold_preference_rules(ctx, facts, folds[0], te_parse)
